@@ -124,22 +124,9 @@ def gen_scenario(r):
     return {"steps": out, "src": "gen-" + profile}
 
 
-def flood_scenario(r, n=1100):
-    """One subscriber stalls at once, another keeps reading, n matching VAAs are published, then the stalled one reads
-    again: exercises whatever bounded-buffer policy an implementation has far beyond any plausible queue size."""
-    em = {"c": r.choice(CHAINS), "a": r.choice(ADDRS)}
-    steps = [{"ev": "Subscribe", "a": {"s": "s1", "f": []}}, {"ev": "Subscribe", "a": {"s": "s2", "f": [em]}},
-             {"ev": "Stall", "a": {"s": "s1"}}]
-    for i in range(n):
-        steps.append({"ev": "Publish", "a": {"v": {"id": "v%d" % (i + 1), "em": em}}})
-    steps.append({"ev": "Sync", "a": {}})
-    steps.append({"ev": "Resume", "a": {"s": "s1"}})
-    return {"steps": steps, "src": "gen-flood"}
-
-
-def gen_scenarios(seed_, n, floods=0):
+def gen_scenarios(seed_, n):
     rnd = random.Random("spy-gen-%d" % seed_)
-    return [gen_scenario(rnd) for _ in range(n)] + [flood_scenario(rnd) for _ in range(floods)]
+    return [gen_scenario(rnd) for _ in range(n)]
 
 
 # ------------------------------------------------------------------ replay + validation
